@@ -111,6 +111,7 @@ def events_for(darsia, rng, shape, h, tid, integer_h):
     # reconstructions below); the evaluation point is passed in the forms callers use: ndarray, list, tuple, scalar (1-D)
     ua = np.array([rng.randint(-9, 9) for _ in range(nf)], dtype=float)
     u = [int(x) for x in ua]
+    held = []
     for rep in range(3):
         q = rng.choice([1, 2, 4])
         t = [rng.randint(0, q) for _ in range(dim)]
@@ -119,7 +120,13 @@ def events_for(darsia, rng, shape, h, tid, integer_h):
         res = darsia.face_to_cell(grid, ua, pt)
         flat = [[qi(q * res[..., d].ravel("F")[c]) for d in range(dim)] for c in range(nc)]
         ev.append(dict(base, op="f2c", u=u, t=t, q=q, res=flat, ptform=form))
+        held.append((len(ev) - 1, res, np.array(res, copy=True)))      # the caller keeps what it was given
     res = darsia.face_to_cell(grid, ua)  # default: cell centre
+    held.append((len(ev), res, np.array(res, copy=True)))
+    # results of earlier calls are the caller's arrays: a later reconstruction on the same grid does not write into them
+    for (idx_, obj_, snap_) in held[:-1]:
+        if not np.array_equal(np.asarray(obj_), snap_):
+            ev[idx_]["res"] = [[BADINT]]
     ev.append(dict(base, op="f2c", u=u, t=[1] * dim, q=2,
                    res=[[qi(2 * res[..., d].ravel("F")[c]) for d in range(dim)] for c in range(nc)]))
     # cell -> face averages.  One caller-owned field per kind is averaged several times (harmonic, arithmetic, harmonic,
